@@ -14,7 +14,7 @@ from ..callgraph import CallGraph
 from .. import envres
 from .kernels import (WB, KD, CG, E, GRID, PAR, DEPTH, Z0, U, THW, FI, DI, kernel_interp, par, grid, assumptions, wind,
                       flatten_tab)
-from .c02 import match_nested_sum
+from .c02 import match_nested_sum, full_range
 
 EXPLANATION = (
     "TermFlow extracts, for each registered point function (ST4 wind input; ST4, ST6, Romero dissipation), the term "
@@ -223,10 +223,14 @@ def run(ctx):
             ctx.bad("R08.3", f"bulk {what}[integral]", "bulk value is not a double sum over frequency and direction",
                     fb.loc(), derived=vb)
         else:
-            X, ((fv, _), (dv, _)) = m
+            X, ((fv, fr), (dv, dr)) = m
             ref = op("item", calls_b[0], sp.Tuple(fv, dv)) * op("item", fstep, fv) * op("item", dstep, dv)
             ctx.equiv("R08.3", f"bulk {what}[integral]", X, ref, fb.loc(),
                       "bulk == sum_f sum_d rate[f,d]*frequency_step[f]*direction_step[d]", interp=it)
+            arrays = (calls_b[0], calls_b[0].args[0]) if calls_b[0].args else (calls_b[0],)
+            ctx.expect(full_range(fr, arrays, (0, -2)) and full_range(dr, arrays, (1, -1)), "R08.3", f"bulk {what}[all bins]",
+                       "the double sum runs over every frequency and every direction bin of the point's rate array", fb.loc(),
+                       derived=sp.Tuple(fr, dr))
         ctx.equiv("R08.3", f"spectral {what}[stored value]", vs, calls_s[0], fs.loc(),
                   "the spectral kernel stores the point function's result unchanged", interp=it)
     ctx.absorb(it)
@@ -477,6 +481,10 @@ def batch_independence(ctx, rule, quals):
                         problems.append(f"per-point array `{txt}` is passed whole to `{ast.unparse(n.func)}` inside the point loop")
                     if isinstance(a, ast.Name) and a.id in outer_arrays and a.id not in params:
                         problems.append(f"buffer `{a.id}` allocated outside the loop is handed to `{ast.unparse(n.func)}` (shared between points)")
+        from .fc import whole_axis_range
+        okr, ext = whole_axis_range(f.node, lp)
+        if not okr:
+            problems.append(f"the point loop runs over `{ext}`, not over the whole leading axis: some points are never computed")
         if problems:
             ctx.bad(rule, f"{f.name}[point loop]", "; ".join(sorted(set(problems))), f.loc(lp))
         else:
